@@ -414,10 +414,20 @@ def r5_factory(ctx):
     ctx.check(end == 'raise' and nm == 'ValueError', 'R5', fc.loc, fc.qualname, 'factory-unknown-raises',
               'an unknown encoding value raises ValueError', f'an unknown encoding value ends with {end} {nm}')
     et = ctx.prog.func(f'{EXP}.export_token')
-    calls = [c for c in walk_local(et.node) if isinstance(c, ast.Call) and isinstance(c.func, ast.Attribute) and c.func.attr == 'create'
-             and src(c.func.value) == 'TokenizerFactory']
-    ok = len(calls) == 1 and calls[0].args and src(calls[0].args[0]) == 'options.kern_type.value' and \
-        {k.arg: src(k.value) for k in calls[0].keywords} == {'token_categories': 'options.token_categories', 'last_clef_reference': 'last_clef'}
+    # on every path (the clef argument itself is decided by C10.R6 / C08.R1)
+    ok = True
+    n_calls = 0
+    for cond, val, sp in symex.returns(et):
+        calls = [c for c in ast.walk(val) if isinstance(c, ast.Call) and isinstance(c.func, ast.Attribute) and c.func.attr == 'create'
+                 and src(c.func.value) == 'TokenizerFactory']
+        if len(calls) != 1:
+            ok = False
+            continue
+        n_calls += 1
+        b_ = F.bind_args(calls[0], fc, True)
+        ok = ok and src(b_.get(tp)) == 'options.kern_type.value' and src(b_.get('token_categories')) == 'options.token_categories' \
+            and b_.get('last_clef_reference') is not None and set(b_) <= {tp, 'token_categories', 'last_clef_reference'}
+    ok = ok and n_calls > 0
     ctx.check(ok, 'R5', et.loc, et.qualname, 'factory-call',
               'export_token selects the tokenizer by options.kern_type.value and hands over the category set and the clef in force')
 
